@@ -43,6 +43,11 @@ def gen_event_loop(rng):
     blocks[-1]['events'].append(dict(dest='s0', etype=rng.choice(['put', 'cond']), nfu=rng.random() < 0.3))
     if rng.random() < 0.3 and n > 1:
         blocks[2]['events'].append(dict(dest='s1', etype='put', nfu=False))
+    if rng.random() < 0.4:
+        # a gate fed through '_not_NAME' shortcuts: the inverters are created by the finalisation and
+        # count as blocks of the circuit (the limit is 3 evaluations per block of the FINAL circuit)
+        blocks.append(dict(name='gate', kind=rng.choice(['and', 'or']),
+                           ins={'_': [['not', 's0'], ['not', 's1']]}, events=[]))
     bursts = [[[rng.choice(['s0', 's1']), 'put', rng.choice(BOOLV)]] for _ in range(rng.randrange(0, 4))]
     return dict(blocks=blocks, bursts=bursts, family='event_loop')
 
